@@ -358,3 +358,6 @@ def run(repo: Repo, rep: Report, tier: str) -> None:
     from .compiled import compiled_fold_rule
 
     compiled_fold_rule(repo, rep, "C12.R13", tier)
+    from .c05 import codec_fold_rule as _cfr12
+
+    _cfr12(repo, rep, "C12.R14")
